@@ -157,9 +157,17 @@ func NewKeyUsage(critical bool, flags KeyUsage) pkix.Extension {
 	content := make([]byte, 1)
 	content[0] = uint8(flags & 0xFE) //lowest bit must be zero
 
-	bs := asn1.BitString{
-		Bytes:     content,
-		BitLength: 7,
+	//KeyUsage is a named bit list: DER does not encode trailing zero bits
+	bs := asn1.BitString{}
+	if content[0] != 0 {
+		bitLength := 7
+		for content[0]&(1<<(8-bitLength)) == 0 {
+			bitLength--
+		}
+		bs = asn1.BitString{
+			Bytes:     content,
+			BitLength: bitLength,
+		}
 	}
 
 	//disard error since we control the data
